@@ -353,6 +353,23 @@ def _engine_fault(exc):
         # np.linspace(..., dtype=...)) is raised in the caller's frame: a gap of the model, not behaviour of the code
         if re.match(r"^(_NP|_MA|_Random|_XR|_PD|Sym\w+|\w*Proxy|\w*Stub)\.\w+\(\) (got an unexpected keyword argument|takes|missing)", str(exc)):
             return True
+    if isinstance(exc, AttributeError):
+        # contract setups build estimators with __new__ and set the attributes the code read when the contract was
+        # written. An attribute that the class's own __init__ assigns but the setup did not (a refactor moved some
+        # state into the constructor) is a gap of the setup, not behaviour of the code
+        import inspect
+        import re
+
+        m = re.match(r"^'(\w+)' object has no attribute '(\w+)'", str(exc))
+        obj = getattr(exc, "obj", None)
+        if m and obj is not None and type(obj).__name__ == m.group(1) and type(obj).__module__.startswith("verde"):
+            try:
+                for klass in type(obj).__mro__:
+                    init = klass.__dict__.get("__init__")
+                    if init is not None and re.search(r"self\.%s\s*=" % re.escape(m.group(2)), inspect.getsource(init)):
+                        return True
+            except (OSError, TypeError):
+                pass
     if "site-packages" in fn or "/lib/python3" in fn:
         # raised inside a real third-party / stdlib routine: a proxy leaked past the prelude.
         # (scikit-learn's NotFittedError from check_is_fitted is genuine behaviour.)
